@@ -14,6 +14,7 @@ from pydsdl import BitLengthSet
 
 from .. import engine
 from .. import histories as H
+from . import c06
 from ..gen import types as T
 from ..gen import values as V
 from ..ref import codec as C
@@ -272,6 +273,17 @@ def check_case(case, R: engine.Acc):
             except C.BadValue:
                 continue
             R.case([D1, D2, kind, naming, with_header, direction, repr(v)], nontrivial=True, sample=(vi == 5 and kind == "varr"))
+            if vi % 2 == 0:
+                # a failed write first (one leaf of the value at a time cannot be encoded: the failure comes after any part of the nested
+                # delimited object was written); what it leaves behind must not reach the next write
+                for pv in c06.poisoned_variants(v):
+                    try:
+                        pydsdl.serialize(wt, pv, with_delimiter_header=with_header)
+                    except Exception:  # noqa
+                        R.counters["failed_writes_before_valid_ones"] += 1
+                    if pydsdl.serialize(wt, v, with_delimiter_header=with_header) != wire_ref:
+                        R.violation("writer-bytes-after-a-failed-write", "writer produces the Specification's bytes, whatever call failed before", {**one, "failed": repr(pv)[:200]}, expected=wire_ref.hex())
+                        break
             wire = pydsdl.serialize(wt, v, with_delimiter_header=with_header)
             if wire != wire_ref:
                 R.violation("writer-bytes", "writer produces the Specification's bytes (see C06)", one, observed=wire.hex(), expected=wire_ref.hex())
